@@ -11,6 +11,9 @@ import PetgraphModel.Proofs.C09Cond
 import PetgraphModel.Proofs.C09W2Cond
 import PetgraphModel.Proofs.C09W2Tarjan
 import PetgraphModel.Proofs.C09W2TjBig
+import PetgraphModel.Proofs.C09W3Total
+import PetgraphModel.Proofs.C09W3Tarjan
+import PetgraphModel.Proofs.C09W3Driver
 /-
 C09 — SCC, connectivity, cycle detection, toposort and condensation are exact.
 
@@ -344,5 +347,203 @@ example : cyclicDirected exV = some true := by decide +kernel
 example : connectedComponents 5 [(0,1),(1,0),(1,2),(2,3),(3,2),(4,4),(1,2)] = some 2 := by decide +kernel
 example : cyclicUndirected 5 [(0,1),(1,2)] (UF.new 0 5) = some false := by decide +kernel
 example : (condensation exV [0,1,2,3,4,5,6] true).map (·.edges) = some [(2, 1, 5)] := by decide +kernel
+
+/-! ## Part 3 (wave 3) — totality of the mirror models
+
+Every model theorem of Part 2 is conditional on the model returning (`… = some r`; `none` / `.fuel` =
+the model's fixed fuel `fuel v = 4|E| + 2|V| + 16` ran out).  `ViewOk` / `PredOk` alone do not
+exclude that: they fix the *set* of neighbours a view enumerates, not how often
+(`C09_toposort_needs_bound_witness`).  With the length bound `SuccBound` / `PredBound` (no node has
+more listed neighbours than the abstract graph has incident edges — true of every view the driver
+accepts, `C09_driver_view_check`) every model returns, so the statements hold unconditionally. -/
+
+/-- the successor lists of the nodes are no longer than those of the abstract graph -/
+def SuccBound (v : View) : Prop := ∀ a, a ∈ v.g.nodes → (v.succ a).length ≤ (v.g.succ a).length
+/-- the predecessor lists of the nodes are no longer than those of the abstract graph -/
+def PredBound (v : View) : Prop := ∀ a, a ∈ v.g.nodes → (v.pred a).length ≤ (v.g.pred a).length
+
+/-- the fuel of the models covers the bound of the C08 totality theorems, on the view and on the
+reversed view: `Σ_{u ∈ nodes} (|succ u| + 2) + 2 ≤ 2|E| + 2|V| + 2 ≤ fuel v`. -/
+theorem C09_fuel_suffices (v : View) (hwf : v.g.WellFormed) (hb : SuccBound v) (hbp : PredBound v) :
+    TravProofs.walkFuel v ≤ fuel v ∧ TravProofs.walkFuel (rev v) ≤ fuel v :=
+  ⟨C09P.walkFuel_le_fuel v hwf hb, C09P.walkFuel_rev_le_fuel v hwf hbp⟩
+
+/-- what the driver's `viewOkB` checks, as propositions: on every node the successor / predecessor
+iteration is a permutation of the abstract graph's — so `ViewOk` / `PredOk` on the nodes and the two
+length bounds; a view that moreover enumerates nothing for a non-node satisfies `ViewOk` and `PredOk`
+in full (over a well-formed graph). -/
+theorem C09_driver_view_check (v : View) (h : C09.viewOkB v = true) :
+    SuccBound v ∧ PredBound v ∧
+    (∀ a, a ∈ v.g.nodes → (v.succ a).Perm (v.g.succ a) ∧ (v.pred a).Perm (v.g.pred a)) ∧
+    (∀ a, a ∈ v.g.nodes → ∀ b, (b ∈ v.succ a ↔ v.g.Adj a b) ∧ (b ∈ v.pred a ↔ v.g.Adj b a)) ∧
+    (v.g.WellFormed → (∀ a, a ∉ v.g.nodes → v.succ a = [] ∧ v.pred a = []) → ViewOk v ∧ PredOk v) :=
+  ⟨C09P.viewOkB_succLe v h, C09P.viewOkB_predLe v h, C09P.viewOkB_perm v h,
+   fun a ha b => ⟨C09P.viewOkB_succ_iff v h a ha b, C09P.viewOkB_pred_iff v h a ha b⟩,
+   fun hwf hout => C09P.viewOkB_viewOk v h hwf hout⟩
+
+/-- all four hypotheses of the theorems below hold for a view the driver accepts, over a well-formed
+graph, that enumerates nothing for a non-node. -/
+theorem C09_driver_views (v : View) (h : C09.viewOkB v = true) (hwf : v.g.WellFormed)
+    (hout : ∀ a, a ∉ v.g.nodes → v.succ a = [] ∧ v.pred a = []) :
+    ViewOk v ∧ PredOk v ∧ SuccBound v ∧ PredBound v :=
+  ⟨(C09P.viewOkB_viewOk v h hwf hout).1, (C09P.viewOkB_viewOk v h hwf hout).2,
+   C09P.viewOkB_succLe v h, C09P.viewOkB_predLe v h⟩
+
+/-- **`toposort` (mirror model) is total.** -/
+theorem C09_toposort_total (v : View) (hv : ViewOk v) (hp : PredOk v) (hwf : v.g.WellFormed)
+    (hb : SuccBound v) (hbp : PredBound v) : ∃ r, toposort v = some r := by
+  have h1 := C09P.walkFuel_le_fuel v hwf hb
+  have h2 := C09P.walkFuel_rev_le_fuel v hwf hbp
+  exact C09P.toposort_total v (C09P.closed_of_viewOk hv hwf) (C09P.closed_rev hp hwf)
+    (by simp only [C09P.walkFuel] at h1 ⊢; omega) (by simp only [C09P.walkFuel] at h2 ⊢; omega)
+
+/-- **`toposort` returns `Ok` exactly when the graph is acyclic** — unconditionally: the model
+returns; `Ok(order)` happens iff no node lies on a cycle (and then `order` is a topological order),
+otherwise the answer is `Err(Cycle(x))` with `x` on a cycle. -/
+theorem C09_toposort_ok_iff_acyclic (v : View) (hv : ViewOk v) (hp : PredOk v) (hwf : v.g.WellFormed)
+    (hb : SuccBound v) (hbp : PredBound v) :
+    ((∃ ord, toposort v = some (.ok ord)) ↔ ¬ CyclicD v.g) ∧
+    (¬ CyclicD v.g → ∃ ord, toposort v = some (.ok ord) ∧ TopoOrder v.g ord) ∧
+    (CyclicD v.g → ∃ x, toposort v = some (.cycle x) ∧ Reach1 v.g x x) := by
+  obtain ⟨r, hr⟩ := C09_toposort_total v hv hp hwf hb hbp
+  cases r with
+  | ok ord =>
+    have h := C09_toposort_ok v hv hp hwf ord hr
+    exact ⟨⟨fun _ => h.2, fun _ => ⟨ord, hr⟩⟩, fun _ => ⟨ord, hr, h.1⟩, fun hc => absurd hc h.2⟩
+  | cycle x =>
+    have h := C09_toposort_cycle v hv hp hwf x hr
+    refine ⟨⟨?_, fun hn => absurd h.2 hn⟩, fun hn => absurd h.2 hn, fun _ => ⟨x, hr, h.1⟩⟩
+    rintro ⟨ord, ho⟩
+    rw [hr] at ho
+    cases ho
+
+/-- the same, for every view the driver accepts (no run hypothesis, no separate view hypotheses). -/
+theorem C09_driver_toposort_ok_iff_acyclic (v : View) (h : C09.viewOkB v = true) (hwf : v.g.WellFormed)
+    (hout : ∀ a, a ∉ v.g.nodes → v.succ a = [] ∧ v.pred a = []) :
+    ((∃ ord, toposort v = some (.ok ord)) ↔ ¬ CyclicD v.g) ∧
+    (¬ CyclicD v.g → ∃ ord, toposort v = some (.ok ord) ∧ TopoOrder v.g ord) ∧
+    (CyclicD v.g → ∃ x, toposort v = some (.cycle x) ∧ Reach1 v.g x x) := by
+  obtain ⟨hv, hp, hb, hbp⟩ := C09_driver_views v h hwf hout
+  exact C09_toposort_ok_iff_acyclic v hv hp hwf hb hbp
+
+/-- **`kosaraju_scc` (mirror model) is total and exact.** -/
+theorem C09_kosaraju_total (v : View) (hv : ViewOk v) (hp : PredOk v) (hwf : v.g.WellFormed)
+    (hb : SuccBound v) (hbp : PredBound v) : ∃ comps, kosaraju v = some comps ∧ SccSpec v.g comps := by
+  have h1 := C09P.walkFuel_le_fuel v hwf hb
+  have h2 := C09P.walkFuel_rev_le_fuel v hwf hbp
+  obtain ⟨comps, hc⟩ := C09P.kosaraju_total v hv hp hwf h1 (by simp only [C09P.walkFuel] at h2 ⊢; omega)
+  exact ⟨comps, hc, C09_kosaraju v hv hp hwf comps hc⟩
+
+/-- **`has_path_connecting` (mirror model) is total and exactly reachability**, from every node. -/
+theorem C09_has_path_total (v : View) (hv : ViewOk v) (hwf : v.g.WellFormed) (hb : SuccBound v)
+    (a b : Nat) (ha : a ∈ v.g.nodes) : ∃ r, hasPath v a b = some r ∧ (r = true ↔ Reach v.g a b) := by
+  obtain ⟨r, hr⟩ := C09P.hasPath_total v (C09P.closed_of_viewOk hv hwf) (C09P.walkFuel_le_fuel v hwf hb) a b ha
+  exact ⟨r, hr, C09_has_path v hv a b r hr⟩
+
+/-- **`TarjanScc::run` (mirror model) is total**, from any `TarjanScc` value (fresh or used), and no
+injectivity of `to_index` is needed for that. -/
+theorem C09_tarjan_total (v : View) (hv : ViewOk v) (hwf : v.g.WellFormed) (hb : SuccBound v) (t : TJ) :
+    ∃ t', tjRun v t = some t' := by
+  have h1 := C09P.walkFuel_le_fuel v hwf hb
+  have h2 := C09P.dfsFuel_le v
+  exact C09P.tjRun_total v (C09P.closed_of_viewOk hv hwf) (by simp only [C09P.walkFuel] at h1 h2; omega) t
+
+/-- **`TarjanScc::run` is total and exact, fresh and again on the used value** (`C09_tarjan` with its
+run hypotheses discharged). -/
+theorem C09_tarjan_exact (v : View) (hv : ViewOk v) (hix : IxOk v) (hwf : v.g.WellFormed) (hb : SuccBound v)
+    (hsize : 2 * v.g.nodes.length + 1 ≤ usizeMax) :
+    ∃ t1 t2, tjRun v {} = some t1 ∧ tjRun v t1 = some t2 ∧
+      (SccSpec v.g t1.out ∧ IndexSpec t1.out (v.g.nodes.map fun x => (x, tjIndex v t1 x))) ∧
+      (SccSpec v.g t2.out ∧ IndexSpec t2.out (v.g.nodes.map fun x => (x, tjIndex v t2 x))) := by
+  obtain ⟨t1, h1⟩ := C09_tarjan_total v hv hwf hb {}
+  obtain ⟨t2, h2⟩ := C09_tarjan_total v hv hwf hb t1
+  have h := C09_tarjan v hv hix hwf hsize t1 h1
+  exact ⟨t1, t2, h1, h2, h.1, h.2 t2 h2⟩
+
+/-- **`is_cyclic_directed` (mirror model) is total and exact**: it answers, and the answer is `true`
+exactly when some node lies on a directed cycle. -/
+theorem C09_cyclic_directed_total (v : View) (hv : ViewOk v) (hwf : v.g.WellFormed) (hb : SuccBound v) :
+    ∃ b, cyclicDirected v = some b ∧ (b = true ↔ CyclicD v.g) := by
+  have h1 := C09P.walkFuel_le_fuel v hwf hb
+  have h2 := C09P.dfsFuel_le v
+  obtain ⟨b, hb'⟩ := C09P.cyclicDirected_total v (C09P.closed_of_viewOk hv hwf)
+    (by simp only [C09P.walkFuel] at h1 h2; omega)
+  have h := C09_cyclic_directed v hv b hb'
+  refine ⟨b, hb', h.1, fun hc => ?_⟩
+  cases b with
+  | true => rfl
+  | false => exact absurd hc (h.2 rfl hwf)
+
+/-- **`is_bipartite_undirected` (mirror model) is total and exact** from every node: it neither runs
+out of fuel nor trips its assertion, and answers `true` exactly when the component of the start node
+is 2-colourable.  (No bound on the neighbour lists is needed: every node is queued at most once.) -/
+theorem C09_bipartite_total (v : View) (hv : ViewOk v) (hwf : v.g.WellFormed) (s : Nat) (hs : s ∈ v.g.nodes) :
+    ∃ b, bipartite v s = .answer b ∧ (b = true ↔ TwoCol v.g s) := by
+  have h1 := C09P.bipartite_total v (C09P.closed_of_viewOk hv hwf) s hs
+  have h2 := C09_bipartite v hv s
+  cases hr : bipartite v s with
+  | answer b => exact ⟨b, rfl, h2.1 b hr⟩
+  | panic => exact absurd hr h2.2
+  | fuel => exact absurd hr h1
+
+/-- **`condensation` (mirror model, on `Graph`) is total and exact**, with and without `make_acyclic`. -/
+theorem C09_condensation_total (v : View) (hv : ViewOk v) (hp : PredOk v) (hwf : v.g.WellFormed)
+    (hb : SuccBound v) (hbp : PredBound v) (eo : List Nat) (heo : (eo.filterMap v.edge?).Perm v.g.edges) :
+    (∃ c, condensation v eo false = some c ∧ CondSpec v.g c.nodes c.edges) ∧
+    (∃ c, condensation v eo true = some c ∧ CondAcyclicSpec v.g c.nodes c.edges) := by
+  have h1 := C09P.walkFuel_le_fuel v hwf hb
+  have h2 := C09P.walkFuel_rev_le_fuel v hwf hbp
+  have h2' : C09P.walkFuel (rev v) ≤ 2 * fuel v := by simp only [C09P.walkFuel] at h2 ⊢; omega
+  obtain ⟨c1, hc1⟩ := C09P.condensation_total v hv hp hwf h1 h2' eo false
+  obtain ⟨c2, hc2⟩ := C09P.condensation_total v hv hp hwf h1 h2' eo true
+  exact ⟨⟨c1, hc1, C09_condensation v hv hp hwf eo heo c1 hc1⟩,
+    ⟨c2, hc2, C09_condensation_acyclic v eo hv hp hwf heo c2 hc2⟩⟩
+
+/-- `ViewOk` / `PredOk` alone are not enough (the auditor's witness): the graph `0 → 1` seen through a
+view that lists the neighbour `1` of `0` sixty times satisfies both over a well-formed graph, yet
+`toposort` and `has_path_connecting` (for a target that is not found early) run out of their fuel
+(`none`).  The view violates
+`SuccBound`, and the driver's `viewOkB` rejects it. -/
+theorem C09_toposort_needs_bound_witness :
+    ∃ v : View, ViewOk v ∧ PredOk v ∧ v.g.WellFormed ∧ ¬ SuccBound v ∧ C09.viewOkB v = false ∧
+      toposort v = none ∧ hasPath v 0 2 = none := by
+  let g : MGraph := ⟨true, [0, 1], [⟨0, 0, 1, 1⟩]⟩
+  let v : View := ⟨g, 2, [(0, 0), (1, 1)], [(0, List.replicate 60 (1, 0))], [(1, [(0, 0)])]⟩
+  have hv : ViewOk v := by
+    intro a b
+    by_cases ha : a = 0
+    · subst ha
+      simp only [View.succ, View.outOf, v, g, MGraph.Adj]
+      simp [List.lookup]
+      constructor
+      · rintro rfl; rfl
+      · intro e; exact e.symm
+    · have e0 : (a == 0) = false := by simpa using ha
+      simp only [View.succ, View.outOf, v, g, MGraph.Adj]
+      simp [List.lookup, e0]
+      intro e; exact (ha e.symm).elim
+  have hp : PredOk v := by
+    intro a b
+    by_cases ha : a = 1
+    · subst ha
+      simp only [View.pred, View.innOf, v, g, MGraph.Adj]
+      simp [List.lookup]
+      constructor
+      · rintro rfl; rfl
+      · intro e; exact e.symm
+    · have e0 : (a == 1) = false := by simpa using ha
+      simp only [View.pred, View.innOf, v, g, MGraph.Adj]
+      simp [List.lookup, e0]
+      intro _ e; exact (ha e.symm).elim
+  refine ⟨v, hv, hp, ?_, ?_, by decide, by decide, by decide⟩
+  · refine ⟨by simp [v, g], ?_⟩
+    intro e he
+    simp only [v, g, List.mem_singleton] at he
+    subst he
+    simp [v, g]
+  · intro h
+    have := h 0 (by simp [v, g])
+    revert this
+    decide
 
 end PetgraphModel.C09T
